@@ -184,7 +184,15 @@ S4 == /\ stage = 35 /\ stage' = 4
             dtKtrace |-> DtKTr, dtphi_bssnok |-> DtPhi, dtgammaup3 |-> V2s([ijq \in Sp \X Sp |-> DtGamUp(ijq[1], ijq[2])]),
             dtgammadown3_bssnok |-> V2s([ijq \in Sp \X Sp |-> DtGamTil(ijq[1], ijq[2])]), dtAdown3_bssnok |-> V2s([ijq \in Sp \X Sp |-> DtATil(ijq[1], ijq[2])]), dts_Gamma_bssnok |-> V1s([iq \in Sp |-> DtGamConf(iq)]),
             s_Gamma_bssnok |-> V1s([i \in Sp |-> JVal(GamConf(i))]),
-            dalpha_over_alpha |-> V1s([i \in Sp |-> Mu(JVal(JD(i, al)), IA0)])
+            dalpha_over_alpha |-> V1s([i \in Sp |-> Mu(JVal(JD(i, al)), IA0)]),
+            (* Eulerian observers (u = n): theta = -K, sigma_ij = -A_ij, a_i = d_i ln(alpha), omega = 0, nabla_a n_b = -d_a alpha delta^t_b + alpha Gamma^t_ab *)
+            nup4 |-> <<Nup(1), Nup(2), Nup(3), Nup(4)>>,
+            theta |-> Ng(KTr), minusA |-> V2s([ijq \in Sp \X Sp |-> Ng(AD(ijq[1], ijq[2]))]),
+            shear2 |-> Mu(Half, Dot33([ijq \in Sp \X Sp |-> Mu(AD(ijq[1], ijq[2]),
+                                  Dot33([abq \in Sp \X Sp |-> Mu(Mu(GU(ijq[1], abq[1]), GU(ijq[2], abq[2])), AD(abq[1], abq[2]))]))])),
+            covd_n |-> V2a([abq \in All \X All |-> Sb(Mu(A0, JVal(gam4[<<1, abq[1], abq[2]>>])),
+                                                        IF abq[2] = 1 THEN JVal(JD(abq[1], al)) ELSE 0)]),
+            zero9 |-> <<0, 0, 0, 0, 0, 0, 0, 0, 0>>, zero16 |-> V2a([abq \in All \X All |-> 0]), zero |-> 0, zero3 |-> <<0, 0, 0>>
          ]
       /\ UNCHANGED <<cs, al, be, gam, gamup, gamdet, g4, g4up, g4det, gam3, gam4, kdd, r3, r4, w4, aux>>
 
